@@ -949,3 +949,25 @@ func TestKnown_C20_Race_StartUnderWaitingStop(t *testing.T) {
 		_ = e.Stop()
 	}
 }
+
+// C18.follower_learns_the_owner_of_the_live_record@checkKeyAndReelect: a follower whose watch could not be set up
+// has only the periodic check, and the periodic check recorded the record's owner only over a non-empty LeaderID:
+// such a follower reported LeaderID "" for as long as the record lived.
+func TestKnown_C18_PeriodicCheckNeverLearnsFirstLeader(t *testing.T) {
+	e, kv := kElection(t, kCfg())
+	if _, err := kv.Create("g", []byte(`{"id":"X","token":"tx"}`)); err != nil {
+		t.Fatal(err)
+	}
+	kv.SetWatchFunc(func(key string, opts ...natsmock.WatchOption) (natsmock.Watcher, error) {
+		return nil, errors.New("watch unavailable")
+	})
+	if err := e.Start(context.Background()); err != nil {
+		t.Fatal(err)
+	}
+	defer e.Stop()
+	time.Sleep(1800 * time.Millisecond) // three periodic checks
+	st := e.Status()
+	if st.State == StateFollower && st.LeaderID != "X" {
+		t.Fatalf("VIOLATION-REPRODUCED: follower without a watch, live record names X, three periodic checks later LeaderID=%q", st.LeaderID)
+	}
+}
